@@ -86,7 +86,7 @@ static THR *mk_thr (void)
 {
 	THR *t = malloc (sizeof (THR)); __CPROVER_assume (t != NULL);
 	t->base.name = nondet_bool () ? NULL : malloc (4);
-	t->base.ours = nondet_bool () ? TRUE : FALSE; t->base.joinable = nondet_bool () ? TRUE : FALSE;
+	t->base.ours = nondet_bool () ? TRUE : FALSE; t->base.joinable = nondet_int ();   /* pboolean is an int: the caller's 'joinable' may be any non-zero value */
 	g_thr = t;
 	return t;
 }
@@ -143,7 +143,7 @@ void h_proxy (void)
 void h_join (void)
 {
 	reset (); THR *t = mk_thr (); t->base.ret_code = nondet_int (); g_thread_code = nondet_int ();
-	_Bool joinable = t->base.joinable == TRUE;
+	_Bool joinable = t->base.joinable != FALSE;
 	pint r = p_uthread_join ((PUThread *) t);
 	if (joinable) { OBL (g_waits_int == 1 && r == g_thread_code, "join waits for the thread to end, then returns the code the thread stored"); CANARY ("joined"); }
 	else { OBL (r == -1 && g_waits_int == 0, "non-joinable: -1 without waiting"); CANARY ("not joinable"); }
